@@ -267,7 +267,7 @@ Proof.
       destruct s0; try (inversion Ec; reflexivity).
       - destruct (idx_for_annassign target (aar_args a)) as [idx|e]; simpl in Ec; [|discriminate].
         destruct (update_defaults idx _ (aar_defaults a)) as [ds0|e] eqn:Eu; simpl in Ec; [|discriminate].
-        destruct (emit_arg _) as [a1|e]; simpl in Ec; [|discriminate].
+        destruct (name_id target) as [ti|]; simpl in Ec; [|discriminate].
         inversion Ec; subst. eapply update_defaults_length; eassumption.
       - destruct (idx_for_assign targets (aar_args a)) as [idx|e]; simpl in Ec; [|discriminate].
         match type of Ec with (do r1 <- ?c; _) = _ => destruct c as [r1|e] end; simpl in Ec; [|discriminate].
@@ -277,7 +277,7 @@ Proof.
     destruct (emit_arg node') as [ra|e] eqn:Er; simpl in Hv; [|discriminate].
     destruct (replace_first_arg search ra (aar_args a)) as [args1 b1] eqn:E1.
     destruct (replace_first_arg search ra (aar_kwonly a)) as [kw1 b2] eqn:E2.
-    inversion Hv; subst. rewrite Hst. simpl.
+    inversion Hv; subst. simpl.
     destruct (replace_first_arg_spec _ _ _ _ _ E1) as [[B1 [A1 F1]]|[B1 [p1 [F1 R1]]]];
       destruct (replace_first_arg_spec _ _ _ _ _ E2) as [[B2 [A2 F2]]|[B2 [p2 [F2 R2]]]]; subst.
     + left. rewrite El, F1, F2. repeat split.
